@@ -1,7 +1,11 @@
 //! This is kind of the entry-point of the type-safe PDF functionality.
 use std::marker::PhantomData;
 use std::collections::HashMap;
-use std::sync::{Arc, Mutex};
+use std::sync::Arc;
+#[cfg(not(feature="verif"))]
+use std::sync::Mutex;
+#[cfg(feature="verif")]
+use crate::verif::Mutex;
 use std::path::Path;
 use std::io::Write;
 
